@@ -10,12 +10,16 @@ package multiplex
 //     that TLC validates against spec/MuxWireTrace.tla.
 
 import (
+	"bytes"
 	"fmt"
 	"io"
 	"sync"
 	"sync/atomic"
 	"testing"
+	"testing/synctest"
 	"time"
+
+	"github.com/cbeuw/Cloak/internal/common"
 
 	"github.com/cbeuw/Cloak/internal/verifhook"
 	kit "github.com/cbeuw/Cloak/internal/verifkit"
@@ -521,6 +525,146 @@ func TestVerifC13CloseSweep(t *testing.T) {
 		p.close()
 		if bad {
 			break
+		}
+	}
+}
+
+// TestVerifC13LateFrame: "no two messages sent by one endpoint under one session key share a (stream id, sequence
+// number) pair" over the life of a session, not only of a stream. A stream is used and closed (actively or by the
+// peer), the session lives on through another stream for many inactivity periods (virtual clock), and then a late or
+// replayed frame carrying the dead stream's id arrives. Whatever the endpoint does with it, it must never put
+// (id, 0), (id, 1), ... on the wire a second time: if the frame re-creates a stream that the application accepts and
+// writes to, the numbering of that id starts again from zero under the same key.
+func TestVerifC13LateFrame(t *testing.T) {
+	log.SetOutput(io.Discard)
+	log.SetLevel(log.PanicLevel)
+	res := kit.NewResult()
+	defer func() { res.Save(true) }()
+	methods := []byte{EncryptionMethodPlain, EncryptionMethodAES256GCM, EncryptionMethodChaha20Poly1305, EncryptionMethodAES128GCM}
+	scen := 0
+	for _, unordered := range []bool{false, true} {
+		for _, closer := range []string{"c", "s"} {
+			for _, wait := range []time.Duration{0, 90 * time.Minute, 100 * time.Hour} {
+				scen++
+				method := methods[scen%4]
+				synctest.Test(t, func(t *testing.T) {
+					p := &c13Pair{vn: kit.NewVNet()}
+					var key [32]byte
+					copy(key[:], kit.NewRng(int64(scen)).Bytes(32))
+					mk := func() *Session {
+						o, _ := MakeObfuscator(method, key)
+						return MakeSession(11, SessionConfig{Obfuscator: o, Unordered: unordered, MsgOnWireSizeLimit: 16401, InactivityTimeout: time.Hour})
+					}
+					p.c, p.s = mk(), mk()
+					p.vn.Tap = func(ev kit.TapEvent) {
+						if ev.Kind != "w" || len(ev.Data) < 5 {
+							return
+						}
+						e, sesh := "c", p.c
+						if ev.From == 1 {
+							e, sesh = "s", p.s
+						}
+						var f Frame
+						if err := sesh.deobfuscate(&f, append([]byte(nil), ev.Data[5:]...)); err != nil {
+							p.bad = err.Error()
+							return
+						}
+						p.mu.Lock()
+						p.wire = append(p.wire, c13Wire{E: e, Sid: f.StreamID, Seq: f.Seq, Closing: f.Closing, Payload: append([]byte(nil), f.Payload...)})
+						p.mu.Unlock()
+					}
+					l := p.vn.NewLink(false, false)
+					p.links = append(p.links, l)
+					p.c.AddConnection(common.NewTLSConn(l.End(0)))
+					p.s.AddConnection(common.NewTLSConn(l.End(1)))
+					keep, _ := p.c.OpenStream()
+					keep.Write([]byte("keep"))
+					dead, _ := p.c.OpenStream()
+					dead.Write([]byte("hello"))
+					synctest.Wait()
+					var sKeep, sDead *Stream
+					for i := 0; i < 2; i++ {
+						conn, err := p.s.Accept()
+						if err != nil {
+							t.Fatal(err)
+						}
+						if conn.(*Stream).id == dead.id {
+							sDead = conn.(*Stream)
+						} else {
+							sKeep = conn.(*Stream)
+						}
+					}
+					buf := make([]byte, 100)
+					sDead.Read(buf)
+					sDead.Write([]byte("world")) // the server has used (id, 0) on this stream
+					synctest.Wait()
+					if closer == "c" {
+						dead.Close()
+					} else {
+						sDead.Close()
+					}
+					synctest.Wait()
+					if wait > 0 {
+						time.Sleep(wait)
+						synctest.Wait()
+					}
+					if p.c.IsClosed() || p.s.IsClosed() {
+						res.Note("scenario %d: a session closed during the wait (kept alive by an open stream?)", scen)
+						return
+					}
+					// late / replayed frames with the dead id, to both endpoints (sealed with the session key, as the
+					// peer's frames are): a data frame with the next number and one with a number already used
+					for _, seq := range []uint64{1, 0, 7} {
+						for _, tgt := range []*Session{p.s, p.c} {
+							b := make([]byte, 600)
+							n, err := tgt.obfuscate(&Frame{StreamID: dead.id, Seq: seq, Payload: []byte("late")}, b, 0)
+							if err != nil {
+								t.Fatal(err)
+							}
+							tgt.recvDataFromRemote(b[:n])
+						}
+					}
+					synctest.Wait()
+					// an application that accepts whatever the session offers and answers on it
+					for _, sesh := range []*Session{p.s, p.c} {
+						for len(sesh.acceptCh) > 0 {
+							conn, err := sesh.Accept()
+							if err != nil {
+								break
+							}
+							conn.(*Stream).Write([]byte("answer"))
+							conn.(*Stream).Write([]byte("answer2"))
+						}
+					}
+					synctest.Wait()
+					p.mu.Lock()
+					wire := append([]c13Wire(nil), p.wire...)
+					p.mu.Unlock()
+					res.Count(fmt.Sprintf("late-%v-%s-%v", unordered, closer, wait), true)
+					type k struct {
+						e   string
+						sid uint32
+						seq uint64
+					}
+					seen := map[k]int{}
+					for i, f := range wire {
+						kk := k{f.E, f.Sid, f.Seq}
+						if j, ok := seen[kk]; ok {
+							res.Violate("seq-duplicate", fmt.Sprintf("%s put (stream %d, seq %d) on the wire twice (wire positions %d and %d, payloads equal: %v) after a late frame for the closed stream arrived %v after its close: the per-message nonce is reused",
+								f.E, f.Sid, f.Seq, j, i, bytes.Equal(wire[j].Payload, f.Payload), wait),
+								map[string]any{"unordered": unordered, "closer": closer, "wait": wait.String(), "method": method})
+							break
+						}
+						seen[kk] = i
+					}
+					if p.bad != "" {
+						res.Violate("wire-undecodable", p.bad, nil)
+					}
+					_ = sKeep
+					p.close()
+					synctest.Wait()
+				})
+			}
 		}
 	}
 }
